@@ -357,6 +357,7 @@ def main(argv=None):
     errors = []
     all_obls = []
     functions = []
+    fully_keys = set()
     assumptions = set(getattr(mod, 'ASSUMPTIONS', []))
     solver_secs = 0.0
     backends = {}
@@ -403,6 +404,10 @@ def main(argv=None):
             h = hashlib.sha256(o['name'].encode()).hexdigest()[:10]
             rpath = os.path.join(VERIF, 'replays', f'{pid}_{h}.json')
             inbase = baseline is not None and o['name'] in baseline.get('proved', [])
+            if baseline is not None and not inbase and o['kind'] == 'raises' and owner in baseline.get('fully_proved', []):
+                # an undocumented exception at a raise site the baseline tree did not have: the function-level
+                # claim (every exit is a return or a documented exception) was proved for the baseline source
+                inbase = True
             changed = baseline is not None and source_hash is not None and \
                 baseline.get('hashes', {}).get(owner.split('[')[0]) not in (None, source_hash)
             rp['in_baseline'] = inbase
@@ -418,10 +423,12 @@ def main(argv=None):
                 undecided.append(o['name'] + ' (internal proof obligation refuted, no replayed input)')
             elif internal and inbase and changed:
                 violations.append((o['name'], rpath, 'no-failing-input-found'))
+            elif inbase and changed:
+                # proved on the baseline tree, the function's source has changed, now refuted: the obligation is
+                # the violation even where the solver's model does not replay (it may rest on an unmodelled call)
+                violations.append((o['name'], rpath, 'no-failing-input-found'))
             elif confirmed is False and not o.get('havoc_on_path', True) and not internal:
                 errors.append(f'refuted obligation {o["name"]} does not replay on a havoc-free path: encoding error')
-            elif inbase and changed:
-                violations.append((o['name'], rpath, 'no-failing-input-found'))
             elif baseline is None or not inbase:
                 # never proved before: with no confirmed input this is undecided, not a violation
                 undecided.append(o['name'] + ' (refuted by solver, no replayed input)')
@@ -449,6 +456,8 @@ def main(argv=None):
             errors.append(f"{r['key']}: vacuous (no feasible path / contradictory precondition)")
         for o in r['obligations']:
             handle_obligation(o, r['key'], r.get('source_hash'))
+        if r['obligations'] and all(o['proved'] == o['instances'] for o in r['obligations']):
+            fully_keys.add(r['key'])
     for r in lres:
         if r.get('error'):
             errors.append(f"lemma {r.get('name')}: {r['error'][-1500:]}")
@@ -496,7 +505,8 @@ def main(argv=None):
     if a.write_baseline:
         os.makedirs(os.path.join(VERIF, 'baseline'), exist_ok=True)
         with open(os.path.join(VERIF, 'baseline', f'{pid}.json'), 'w') as fp:
-            json.dump({'proved': names_proved, 'hashes': hashes}, fp, indent=1, sort_keys=True)
+            fully = sorted(fully_keys)
+            json.dump({'proved': names_proved, 'hashes': hashes, 'fully_proved': fully}, fp, indent=1, sort_keys=True)
     missing = []
     if baseline is not None:
         cur = {o['name'] for o in all_obls}
